@@ -478,10 +478,10 @@ pub const MALFORMED_VALUES: &[&[u8]] = &[
 /// Garbage that opens a container and then goes wrong (for long histories).
 pub const BROKEN_STARTS: &[&[u8]] = &[b"[}", b"{]", b"[x]", b"[1,]", b"{\"a\"}", b"[[}"];
 
-/// Words and numbers that stop before they are complete. The pinned tree's diagnostic for
-/// them quotes the byte that follows - a line feed, say - verbatim, so they are used only
-/// where no diagnostic is printed (the panic policy).
-pub const BROKEN_WORDS: &[&[u8]] = &[b"tru", b"nul", b"fals", b"-", b"t", b"2e"];
+/// Words and numbers that stop before they are complete (no JSON value starts like this and
+/// ends here). The pinned tree's diagnostic for them quotes the byte that follows - a line
+/// feed, say - verbatim, so where diagnostics are printed they are followed by a blank.
+pub const BROKEN_WORDS: &[&[u8]] = &[b"tru", b"nul", b"fals", b"-", b"t", b"2e", b"1e+", b"--", b"-e", b"- -"];
 
 /// What other tools put in front of a text file: byte-order marks (whole and cut), a
 /// shebang, a form feed. Garbage for jawk like any other byte that cannot start a value.
